@@ -5,7 +5,8 @@
    aggregates.py; the input solution sequence is a parameter. *)
 From Coq Require Import Permutation Sorting.Sorted.
 From RV Require Import Modifiers.Model Modifiers.Order Modifiers.Post Modifiers.Agg
-                       Modifiers.Proofs Modifiers.Readings Modifiers.PromoModel Modifiers.PromoProofs.
+                       Modifiers.Proofs Modifiers.Readings Modifiers.PromoModel Modifiers.PromoProofs
+                       Modifiers.ExprProofs.
 
 (* The tie between model and checker: on every well-formed case the rows the
    model computes (aggregation stage, query without slice, query) are accepted
@@ -54,6 +55,22 @@ Theorem C08_orderby_generic : forall (A : Type) (lt : A -> A -> bool),
 Proof. exact orderby_generic. Qed.
 Print Assumptions C08_orderby_generic.
 
+(* "may precede" under any list of ASC/DESC keys is a total preorder on solutions ... *)
+Theorem C08_lexP_total_preorder : forall keys,
+  (forall a, lexP keys a a)
+  /\ (forall a b, lexP keys a b \/ lexP keys b a)
+  /\ (forall a b c, lexP keys a b -> lexP keys b c -> lexP keys a c).
+Proof. intros keys. split; [apply lexP_refl|split; [apply lexP_total|apply lexP_trans]]. Qed.
+Print Assumptions C08_lexP_total_preorder.
+
+(* ... and ORDER BY is a STABLE sort for it: any rows that are pairwise tied on every key keep
+   the order in which they arrived (p selects such a set of rows) *)
+Theorem C08_orderby_stable : forall keys (p : sol -> bool) l,
+  (forall k a b, In k keys -> p a = true -> p b = true -> row_lt (snd k) a b = false) ->
+  filter p (eval_orderby keys l) = filter p l.
+Proof. exact eval_orderby_stable. Qed.
+Print Assumptions C08_orderby_stable.
+
 Theorem C08_lex_le_reading : forall keys r1 r2, lex_le keys r1 r2 = true <-> lexP keys r1 r2.
 Proof. exact lex_le_iff. Qed.
 Print Assumptions C08_lex_le_reading.
@@ -80,7 +97,7 @@ Theorem C08_post_reading : forall c a f,
   let p := eval_project (c_proj c) a in
   Permutation f (if c_distinct c then dedup sol_eqb p else p)
   /\ (c_distinct c = true -> NoDup f /\ forall r, In r f <-> In r p)
-  /\ (keys_visible c = true -> Sorted (fun x y => lexP (c_order c) x y) f).
+  /\ (keys_visible c = true -> StronglySorted (lexP (c_order c)) f).
 Proof. exact post_ok_reading. Qed.
 Print Assumptions C08_post_reading.
 
@@ -120,24 +137,106 @@ Theorem C08_distinct_values : forall a v rows,
 Proof. exact avals_distinct. Qed.
 Print Assumptions C08_distinct_values.
 
+(* arg_error v rows: the argument EXPRESSION is an error in some solution of the group (an
+   unbound plain variable does not count, such solutions are left out).  18.5.1.3/4: an error
+   element or a non-numeric member makes SUM / AVG an error: the variable is unbound for
+   that group. *)
 Theorem C08_sum : forall a v rows r,
   a_arg a = Some v -> a_kind a = ASum -> agg_adm a rows r = true ->
-  (forallb is_numeric (avals a v rows) = true ->
+  (arg_error v rows = false -> forallb is_numeric (avals a v rows) = true ->
      exists t, r = Some t /\ num_same t (lit_of_num (sum_nums (nums_of (avals a v rows)))) = true)
-  /\ (forallb is_numeric (avals a v rows) = false -> r = None).
+  /\ (arg_error v rows = true \/ forallb is_numeric (avals a v rows) = false -> r = None).
 Proof. exact sum_reading. Qed.
 Print Assumptions C08_sum.
 
 Theorem C08_avg : forall a v rows r,
   a_arg a = Some v -> a_kind a = AAvg -> agg_adm a rows r = true ->
-  (forallb is_numeric (avals a v rows) = true ->
+  (arg_error v rows = false -> forallb is_numeric (avals a v rows) = true ->
      (avals a v rows = [] -> r = Some (TInt 0))
      /\ (avals a v rows <> [] -> exists t, r = Some t /\
            num_same t (avg_lit (sum_nums (nums_of (avals a v rows)))
                                (Z.of_nat (length (avals a v rows)))) = true))
-  /\ (forallb is_numeric (avals a v rows) = false -> r = None).
+  /\ (arg_error v rows = true \/ forallb is_numeric (avals a v rows) = false -> r = None).
 Proof. exact avg_reading. Qed.
 Print Assumptions C08_avg.
+
+(* the value SUM accumulates IS the arithmetic sum of the members: at any scale K that covers
+   them, (value * 10^K) of the result = sum of (value * 10^K) of the members; exact, no rounding,
+   hence independent of the order in which the solutions arrive *)
+Theorem C08_sum_is_arithmetic_sum : forall l K,
+  Forall (fun n => (scale_of n <= K)%N) l ->
+  scaled (sum_nums l) K = zsum (map (fun n => scaled n K) l).
+Proof. exact sum_nums_value. Qed.
+Print Assumptions C08_sum_is_arithmetic_sum.
+
+(* numeric comparison (ORDER BY, MIN/MAX, HAVING, <) is the comparison of the values *)
+Theorem C08_numeric_order_is_value_order : forall m k m' k' K, (k <= K)%N -> (k' <= K)%N ->
+  num_lt (m, k) (m', k') = (scaled (NDec m k) K <? scaled (NDec m' k') K)%Z.
+Proof. exact num_lt_scaled. Qed.
+Print Assumptions C08_numeric_order_is_value_order.
+
+(* ------------------------------------------------------------------ *)
+(* Expressions as aggregate arguments (eval_t / eval_b model operators.py; None = error).
+   C08_accumulators and the readings above quantify over ALL argument expressions: the values an
+   aggregate works on are [ovals e rows], one per solution, None where e is an error; COUNT, MIN,
+   MAX, SAMPLE, GROUP_CONCAT leave such solutions out, SUM and AVG become an error themselves
+   (arg_error).  The laws of the evaluator itself: *)
+Theorem C08_expr_arithmetic_strict : forall r,
+  (forall a t, eval_t (ENeg a) r = Some t ->
+     exists x n, eval_t a r = Some x /\ numv_of x = Some n /\ t = lit_of_num (num_neg n))
+  /\ (forall a t, eval_t (EPos a) r = Some t ->
+     exists x n, eval_t a r = Some x /\ numv_of x = Some n /\ t = lit_of_num n)
+  /\ (forall a b t, eval_t (EAdd a b) r = Some t ->
+     exists x y n m, eval_t a r = Some x /\ eval_t b r = Some y /\ numv_of x = Some n /\ numv_of y = Some m
+                     /\ t = lit_of_num (num_add n m))
+  /\ (forall a b t, eval_t (ESub a b) r = Some t ->
+     exists x y n m, eval_t a r = Some x /\ eval_t b r = Some y /\ numv_of x = Some n /\ numv_of y = Some m
+                     /\ t = lit_of_num (num_add n (num_neg m))).
+Proof. exact arith_strict. Qed.
+Print Assumptions C08_expr_arithmetic_strict.
+
+Theorem C08_expr_arithmetic_value : forall a b K,
+  (scale_of a <= K)%N -> (scale_of b <= K)%N ->
+  scaled (num_add a b) K = (scaled a K + scaled b K)%Z /\ scaled (num_neg a) K = (- scaled a K)%Z.
+Proof. intros a b K Ha Hb. split; [now apply scaled_add|apply scaled_neg]. Qed.
+Print Assumptions C08_expr_arithmetic_value.
+
+Theorem C08_expr_coalesce_if_bound : forall r,
+  (forall a b, eval_t (ECoalesce a b) r = match eval_t a r with Some t => Some t | None => eval_t b r end)
+  /\ (forall v, eval_b (BBound v) r = Some (match lookup v r with Some _ => true | None => false end))
+  /\ (forall c a b, eval_t (EIf c a b) r =
+        match eval_b c r with Some true => eval_t a r | Some false => eval_t b r | None => None end)
+  /\ (forall v a b, eval_t (EIf (BBound v) a b) r = match lookup v r with Some _ => eval_t a r | None => eval_t b r end)
+  /\ (forall v a, eval_t (ECoalesce (EVar v) a) r = eval_t (EIf (BBound v) (EVar v) a) r).
+Proof. exact coalesce_if_bound. Qed.
+Print Assumptions C08_expr_coalesce_if_bound.
+
+Theorem C08_expr_three_valued_logic : forall c d r,
+  eval_b (BAnd c d) r = eval_b (BAnd d c) r
+  /\ eval_b (BOr c d) r = eval_b (BOr d c) r
+  /\ eval_b (BNot (BAnd c d)) r = eval_b (BOr (BNot c) (BNot d)) r
+  /\ eval_b (BNot (BOr c d)) r = eval_b (BAnd (BNot c) (BNot d)) r
+  /\ (eval_b c r = Some false -> eval_b (BAnd c d) r = Some false)
+  /\ (eval_b c r = Some true -> eval_b (BOr c d) r = Some true)
+  /\ (eval_b c r = None -> eval_b d r <> Some false -> eval_b (BAnd c d) r = None)
+  /\ (eval_b c r = None -> eval_b d r <> Some true -> eval_b (BOr c d) r = None).
+Proof. exact three_valued. Qed.
+Print Assumptions C08_expr_three_valued_logic.
+
+Theorem C08_expr_comparison_defined : forall op a b,
+  (match op with OpEq | OpNe => True | _ => is_lit a && is_lit b = true end) <-> cmp_terms op a b <> None.
+Proof. exact cmp_terms_defined. Qed.
+Print Assumptions C08_expr_comparison_defined.
+
+(* the repaired defect F-C08h on its witness {1, "x", 2}: COUNT(-?v) = 2, MIN(-?v) = -2,
+   GROUP_CONCAT(-?v) = "-1 -2", SUM(-?v) unbound *)
+Example C08_witness_error_valued_argument :
+  let rows := [[(2, TInt 1)]; [(2, TStr [120])]; [(2, TInt 2)]]%N in
+  let a k := {| a_kind := k; a_distinct := false; a_arg := Some (ENeg (EVar 2%N)) |} in
+  agg_run (a ACount) rows = Some (TInt 2) /\ agg_run (a AMin) rows = Some (TInt (-2))
+  /\ agg_run (a (AConcat [32%N])) rows = Some (TStr [45; 49; 32; 45; 50]%N) /\ agg_run (a ASum) rows = None
+  /\ agg_adm (a ACount) rows (Some (TInt 3)) = false.
+Proof. vm_compute. repeat split. Qed.
 
 Theorem C08_min : forall a v rows r,
   a_arg a = Some v -> a_kind a = AMin -> agg_adm a rows r = true ->
@@ -279,7 +378,7 @@ Definition ib : term := TI [98%N].
 Definition mk (inp : list sol) (gv : list var) (a : aggspec) : case :=
   {| c_input := inp; c_group := Some gv; c_aggs := [(10%N, a)]; c_having := None;
      c_order := []; c_proj := Some (gv ++ [10%N]); c_distinct := false; c_slice := None |}.
-Definition ag k d v := {| a_kind := k; a_distinct := d; a_arg := Some v |}.
+Definition ag k d v := {| a_kind := k; a_distinct := d; a_arg := Some (EVar v) |}.
 Definition w_mixed : list sol := [[(0, ia); (2, TInt 1)]; [(0, ia); (2, TStr [120])]]%N.
 
 (* SUM / AVG over {1, "x"}: unbound for that group (was: exception / 1) *)
